@@ -21,8 +21,9 @@ EXPLANATION = (
     "every position is covered by the result at that position; ids distinct; no exception. (inferred) un-annotated "
     "functions whose body nests one 'return <literal | tuple | conditional expression>' in every combination (depth "
     "2) of if/else/elif, try/except/else/finally, for/else, while/else, with, match: the return statement is found "
-    "and every returned literal kind is covered by the inferred result. (no_return) bodies without 'return <value>' "
-    "yield no results. Shim conformance (every run): all 732 statement trees and all annotation shapes are rendered to "
+    "and every returned literal kind is covered by the inferred result. (several_returns) two (thorough: three) return statements of different shapes - scalars, "
+    "tuples of equal and different length incl. permutations of each other - are all covered position by position. "
+    "(no_return) bodies without 'return <value>' yield no results. Shim conformance (every run): all 732 statement trees and all annotation shapes are rendered to "
     "Python, parsed by the real mypy, and the real visitor must infer identical results on real and builder-made nodes."
 )
 ASSUMPTIONS = [
@@ -51,4 +52,6 @@ def plan(tier):
         CH("inferred", "harness.c07", "inferred", [f"0:{k}" for k in range(12)], timeout=t, desc="return-statement search and coverage",
            stubs=["mypy node classes -> validated shim"], symbolic="statement-tree selectors"),
         CH("no_return", "harness.c07", "no_return", [""], timeout=t, desc="no annotation, no returned value -> no results"),
+        CH("several_returns", "harness.c07", "several_returns", [f"0:{a}" for a in range(7)], timeout=t,
+           desc="two or three return statements of different shapes are all covered", stubs=["mypy node classes -> validated shim"]),
     ]
